@@ -126,3 +126,40 @@ theorem parseRequestLine_reject {raw : Str} {w : Wire} (h : parseRequestLine raw
             rcases emitError_cases ver 400 with e | e <;> rw [e] <;> simp
 
 end Proofs.ListenerHttp
+
+namespace Proofs.ListenerHttp
+open Pywbem.Proto Pywbem.Model Pywbem.Model.XmlText Pywbem.Model.ListenerHttp
+
+/-! ### the Date and Server header values -/
+
+theorem replicate_zero_printable (n : Nat) : printable (List.replicate n '0') = true := by
+  induction n with
+  | zero => rfl
+  | succ n ih => simp only [List.replicate_succ, printable_cons, ih, Bool.and_true]; decide
+
+theorem padNat_printable (w n : Nat) : printable (padNat w n) = true := by
+  simp [padNat, printable_append, replicate_zero_printable, natStr_printable]
+
+theorem getD_printable (l : List String) (i : Nat) (h : ∀ x ∈ l, printable x.toList = true) :
+    printable (l.getD i "???").toList = true := by
+  rw [List.getD_eq_getElem?_getD]
+  cases hx : l[i]? with
+  | none => decide
+  | some x => exact h x (List.mem_of_getElem? hx)
+
+theorem weekday_printable (i : Nat) : printable (weekdayNames.getD i "???").toList = true :=
+  getD_printable _ _ (by decide)
+
+theorem month_printable (i : Nat) : printable (monthNames.getD i "???").toList = true :=
+  getD_printable _ _ (by decide)
+
+theorem dateString_printable (wd d mon y hh mm ss : Nat) : printable (dateString wd d mon y hh mm ss) = true := by
+  have h1 : printable ", ".toList = true := by decide
+  have h2 : printable " GMT".toList = true := by decide
+  have hs : printableC ' ' = true := by decide
+  have hc : printableC ':' = true := by decide
+  have hw := weekday_printable wd
+  have hm := month_printable (mon - 1)
+  simp only [dateString, printable_append, printable_cons, padNat_printable, hw, hm, h1, h2, hs, hc, Bool.and_self]
+
+end Proofs.ListenerHttp
